@@ -527,6 +527,15 @@ Walk:
 				if !lazy {
 					copyWithResize(c.tsrParams, c.params)
 				}
+			} else if charsMatched == len(path) && charsMatchedInNodeFound == len(current.key) && !strings.HasSuffix(path, "/") {
+				// Tsr recommendation: add an extra trailing slash (the intermediary node has a "/" leaf child)
+				if idx := linearSearch(current.childKeys, slashDelim); idx >= 0 && current.children[idx].isLeaf() && len(current.children[idx].key) == 1 {
+					tsr = true
+					n = current.children[idx]
+					if !lazy {
+						copyWithResize(c.tsrParams, c.params)
+					}
+				}
 			}
 		}
 
